@@ -21,6 +21,11 @@ def check_history(ctx, r, tag, resumed_from=None):
         ctx.violation(f"series-length:mcmc_acceptance:{kind}", f"mcmc_acceptance has {len(h.mcmc_acceptance)} entries for {T} iterations "
                       f"(n_final_samples={nf})", {"cfg": cfg, "resumed_from": resumed_from})
     if not cfg["sample_kwargs"].get("store_sample_history", True):
+        # storing switched off: no population is kept — a partial chain (an initial population with every later entry missing) is
+        # exactly "an entry missing"
+        if len(h.sample_history) not in (0, T + 1):
+            ctx.violation(f"population-chain-partial:{tag}", f"store_sample_history=False: {len(h.sample_history)} stored populations for {T} iterations "
+                          f"(none, or the whole chain of {T + 1}, would be a faithful record)", {"cfg": cfg, "resumed_from": resumed_from})
         return
     pops = h.sample_history
     if len(pops) != T + 1:
